@@ -83,6 +83,9 @@ def cases(rng, tier):
                         # the data home on another file system than the system temporary directory
                         yield {"kind": "crash", "retries": 2, "script": ["g"], "crash_at": list(cp), "gz": gz,
                                "entry": entry, "even": entry == "good", "home_fs": "other"}
+    # two loader threads of one interpreter, a transient failure in one while the other parses
+    for gz in (False, True):
+        yield {"kind": "threads2", "gz": gz}
     # orderings of two real datasets (fake network): results must not depend on what was loaded before
     from .c18 import tables
     names = [n for k, v in tables()["documented"].items() if k != "sandvine" for n in v]
@@ -158,6 +161,13 @@ def load_pair(c):
 def run_impl(c):
     if c["kind"] == "pair":
         return load_pair(c)
+    if c["kind"] == "threads2":
+        home = scratch_dir("twv-c19t-")
+        try:
+            code, res = CR.run_in_child(lambda: CR.run_two_threads(home, c["gz"]))
+            return res if res is not None else {"child_exit": code}
+        finally:
+            shutil.rmtree(home, ignore_errors=True)
     home = scratch_dir("twv-c19-", other_fs=c.get("home_fs") == "other")
     try:
         if c["kind"] == "script":
@@ -203,6 +213,8 @@ def b(v):
 
 
 def request(c):
+    if c["kind"] == "threads2":
+        return None
     if c["kind"] == "script":
         return f"cachesolo {b(c['dl'])} {b(c['even'])} {c['retries']} {c['entry']} {','.join(c['script'])} -1"
     if c["kind"] == "pair":
@@ -251,7 +263,7 @@ def parse_list(s):
 
 
 def compare(c, io, mo):
-    if c["kind"] == "pair":
+    if c["kind"] in ("pair", "threads2"):
         return None
     if c["kind"] == "script":
         f = mo[0].split(" ")
@@ -311,6 +323,13 @@ def compare(c, io, mo):
 def oracle(c, io):
     def entry_ok(e):
         return e in ("absent", "complete:good")
+    if c["kind"] == "threads2":
+        if io.get("A") != "good" or io.get("B") != "good" or io.get("attempts_B") != 2 \
+                or any(not entry_ok(e) for e in io.get("entries", [])):
+            return (f"two loader threads, one transient network error in thread B while thread A parses its download: "
+                    f"A {io.get('A')}, B {io.get('B')} after {io.get('attempts_B')} download attempt(s) (a transient error "
+                    f"must be absorbed by the retry), cache entries {io.get('entries')}")
+        return None
     if c["kind"] == "pair":
         if io["alone"] != io["after"] or isinstance(io["alone"], dict):
             return (f"what load_dataset({c['second']!r}) returns depends on whether {c['first']!r} was loaded before "
@@ -366,7 +385,7 @@ def tags(c, io, mo):
     if c["kind"] == "script":
         t += [f"outcome={outcome_of(io).split(':')[0]}" + (":" + io["err"] if "err" in io else ""), f"gz={c['gz']}",
               f"flags={b(c['dl'])}{b(c['even'])}", f"entry={c['entry']}"]
-    elif c["kind"] == "pair":
+    elif c["kind"] in ("pair", "threads2"):
         pass
     elif c["kind"] == "crash":
         t.append(f"crash={c['crash_at'][0]}:{c['crash_at'][1]}")
